@@ -138,7 +138,7 @@ def hat_integral(h, a, b):
 
 class DimWiseRun:
     def __init__(self, D, lmin, lmax, version=6, rebalancing=True, boundary=True, margin=None, safety=0.1,
-                 a=None, b=None, with_hats=True, modified_basis=False, scripted=True, max_hats=None, hat_seed=0):
+                 a=None, b=None, with_hats=True, modified_basis=False, scripted=True, max_hats=None, hat_seed=0, int_domain=False):
         SA, GT, Integration, EC, _ = _imports()
         self.D, self.lmin, self.lmax0 = D, lmin, lmax
         self.a = np.array([0.0] * D if a is None else a, dtype=float)
@@ -155,7 +155,9 @@ class DimWiseRun:
         kw = dict(version=version, operation=self.op, rebalancing=rebalancing, rebalancing_safety_factor=safety)
         if margin is not None:
             kw['margin'] = margin
-        self.combi = SA(self.a, self.b, **kw)
+        # integer-valued domains may be handed over as integer arrays (accepted by the library)
+        a_arg, b_arg = (np.array([int(x) for x in self.a]), np.array([int(x) for x in self.b])) if int_domain else (self.a, self.b)
+        self.combi = SA(a_arg, b_arg, **kw)
         # the margin the caller asked for (documented default 0.9): the specification is fed with the request, not with what the object stored
         self.margin_req = 0.9 if margin is None else float(margin)
         from sparseSpACE.ErrorCalculator import ErrorCalculator
